@@ -1,6 +1,7 @@
 import PersimVerif.Lemmas.SrcLibNp
 import PersimVerif.Lemmas.MGHGreedy
 import PersimVerif.Lemmas.MGHLb
+import PersimVerif.Lemmas.MGHUb
 import Mathlib.Tactic.Ring
 /-
   Bridging lemmas between the mGH source translator's library (`Lemmas/SrcLibNp.lean`) and `Model/MGH.lean`, used by the
@@ -363,12 +364,12 @@ theorem sortKeys_eq {K : List (List Nat)} (h : Sq K) (diam d : Nat) :
     ring
   rw [this]
 
-theorem argminFrom_eq (xs : List Int) (k : Nat) (best : Int) (bi : Nat) : argminFrom xs k best bi = argminAux xs k best bi := by
+theorem argminFrom_eq {α : Type} [LT α] [DecidableLT α] (xs : List α) (k : Nat) (best : α) (bi : Nat) : argminFrom xs k best bi = argminAux xs k best bi := by
   induction xs generalizing k best bi with
   | nil => rfl
   | cons x xs ih => simp only [argminFrom, argminAux, ih]
 
-theorem npArgmin_eq {l : List Int} (h : l ≠ []) : npArgmin l = .ok (argmin l) := by
+theorem npArgmin_eq {α : Type} [LT α] [DecidableLT α] {l : List α} (h : l ≠ []) : npArgmin l = .ok (argmin l) := by
   cases l with
   | nil => exact absurd rfl h
   | cons x xs => simp only [npArgmin, argmin, argminFrom_eq]
@@ -501,5 +502,51 @@ theorem entries_curvLoop (km : Nat → Nat → Int) (diam d m : Nat) (fuel : Nat
     split
     · exact ih _ _ (entries_delRowCol h)
     · exact h
+
+/-! ### `construct_mapping` -/
+
+theorem takeIdx_eq (l : List Nat) (ks : List Nat) (h : ∀ k ∈ ks, k < l.length) :
+    takeIdx l ks = .ok (ks.map fun k => l.getD k 0) := by
+  induction ks with
+  | nil => rfl
+  | cons k ks ih =>
+    simp only [takeIdx, getItem_of_lt (h k (List.mem_cons_self ..)), ih (fun k' hk' => h k' (List.mem_cons_of_mem _ hk')),
+      List.map_cons]
+
+theorem takeCols_eq (D : List (List Nat)) (ks : List Nat) (h : ∀ r ∈ D, ∀ k ∈ ks, k < r.length) :
+    takeCols D ks = .ok (D.map fun r => ks.map fun k => r.getD k 0) := by
+  induction D with
+  | nil => rfl
+  | cons r rs ih =>
+    simp only [takeCols, takeIdx_eq r ks (h r (List.mem_cons_self ..)), ih (fun r' hr' => h r' (List.mem_cons_of_mem _ hr')),
+      List.map_cons]
+
+theorem zipWith_map_absDiff (f g : Nat → Nat) (xs ys : List Nat) :
+    List.zipWith (fun (p q : Nat) => ((p : Int) - (q : Int)).natAbs) (xs.map f) (ys.map g) =
+      (xs.zip ys).map fun p => absDiff (f p.1) (g p.2) := by
+  have e : (fun (p q : Nat) => ((p : Int) - (q : Int)).natAbs) = absDiff := by
+    funext p q; exact natAbs_sub_eq_absDiff p q
+  rw [e]
+  induction xs generalizing ys with
+  | nil => simp
+  | cons x xs ih =>
+    cases ys with
+    | nil => simp
+    | cons y ys => simp only [List.map_cons, List.zipWith_cons_cons, List.zip_cons_cons, ih]
+
+/-- the vector `np.max(np.abs(DX[x, xs] - DY[:, ys]), axis=1)` with all indices in range is the list of the model's `bottleneck`s -/
+theorem bottlenecksFrom_eq (DX DY : List (List Nat)) (x : Nat) (xs ys : List Nat) (hx : x < DX.length)
+    (hxs : ∀ k ∈ xs, k < (DX.getD x []).length) (hys : ∀ r ∈ DY, ∀ k ∈ ys, k < r.length) (hl : xs.length = ys.length)
+    (hne : xs ≠ []) :
+    bottlenecksFrom DX DY x xs ys = .ok ((List.range DY.length).map (bottleneck DX DY x (xs.zip ys))) := by
+  unfold bottlenecksFrom
+  have hrow : getItem DX x = .ok (DX.getD x []) := by simp [getItem, List.getD, hx]
+  simp only [hrow, takeIdx_eq _ _ hxs, takeCols_eq _ _ hys]
+  have : ¬ (xs.length ≠ ys.length ∨ xs = []) := by simp [hl, hne]
+  rw [if_neg this, List.map_map, ← map_range_getD DY]
+  congr 1
+  apply List.map_congr_left
+  intro y _
+  simp only [Function.comp, bottleneck, ent, zipWith_map_absDiff]
 
 end PersimVerif.SrcBridge.MGH
